@@ -165,9 +165,9 @@ Proof.
   destruct (pr_above2 _ _ _ _ _ _ Pe e (le_n e)) as (_&_&Hsu). congruence.
 Qed.
 
-(* effect-level fields no pull ever touches *)
+(* effect-level fields that only the executor / the owner operations touch *)
 Definition eff_static (s s' : state) : Prop :=
-  (forall i, efirst (getn s' i) = efirst (getn s i) /\ epaused (getn s' i) = epaused (getn s i) /\
+  (forall i, epaused (getn s' i) = epaused (getn s i) /\
              ealive (getn s' i) = ealive (getn s i) /\ edone (getn s' i) = edone (getn s i) /\
              epoll (getn s' i) = epoll (getn s i)) /\
   halted s' = halted s.
@@ -184,7 +184,7 @@ Proof.
   intros P. split; [|apply P]. intros i. destruct (pr_eff _ _ _ _ _ _ P i) as (?&?&?&?&?&?). auto.
 Qed.
 Lemma updn_static e f s :
-  (forall n, efirst (f n) = efirst n /\ epaused (f n) = epaused n /\ ealive (f n) = ealive n /\
+  (forall n, epaused (f n) = epaused n /\ ealive (f n) = ealive n /\
              edone (f n) = edone n /\ epoll (f n) = epoll n) ->
   eff_static s (updn e f s).
 Proof.
@@ -200,7 +200,8 @@ Lemma eff_handler_spec e h s :
   Inv0 s -> effb e = true -> expr_ok p e false h ->
   Lcur s e -> Lclean s e -> edirty (getn s e) = false ->
   let s' := eff_handler p e h s in
-  Inv0 s' /\ Lcur s' e /\ Lclean s' e /\ edirty (getn s' e) = false /\ eff_static s s'.
+  Inv0 s' /\ Lcur s' e /\ Lclean s' e /\ edirty (getn s' e) = false /\ eff_static s s' /\
+  efirst (getn s' e) = efirst (getn s e).
 Proof.
   intros I He Hok Hc Hcl Hd. cbv zeta. unfold eff_handler.
   set (s1 := emit (EvHStart e) s).
@@ -218,9 +219,10 @@ Proof.
     as (I2 & T2 & P2). unfold TopOK in T2. cbn [fst] in T2.
   destruct (inv_frame _ _ _ _ I2 e (or_introl eq_refl)) as (F1&F2&_&_&_&_&F7).
   split; [apply Inv_emit; apply (Inv_nil p e 0); eapply Inv_pop; eauto|].
-  split; auto. split; auto. split; auto.
-  eapply eff_static_trans; [apply emit_static|].
-  eapply eff_static_trans; [eapply PullRel_static; exact P2|apply emit_static].
+  split; auto. split; auto. split; auto. split.
+  - eapply eff_static_trans; [apply emit_static|].
+    eapply eff_static_trans; [eapply PullRel_static; exact P2|apply emit_static].
+  - rewrite getn_emit. destruct (pr_eff _ _ _ _ _ _ P2 e) as (->&_). reflexivity.
 Qed.
 
 (* ---------------------------------------------------------------- EffectInner::update_if_necessary *)
@@ -253,7 +255,7 @@ Proof.
 Qed.
 
 Lemma eff_check_spec e s s' need :
-  Inv0 s -> effb e = true -> ealive (getn s e) = true -> epoll (getn s e) = true ->
+  InvBut e [] 0 s -> Rest s e -> effb e = true -> ealive (getn s e) = true -> epoll (getn s e) = true ->
   eff_check p e s = (s', need) ->
   eff_static s s' /\
   rlog (getn s' e) = rlog (getn s e) /\ srcs (getn s' e) = srcs (getn s e) /\
@@ -263,16 +265,16 @@ Lemma eff_check_spec e s s' need :
   (need = true -> InvBut e [] 0 s' /\ queue_ok s' e /\
      (hasrun s' e = true -> since (getn s' e) <> [])).
 Proof.
-  intros I He Ha Hp Hc. unfold eff_check in Hc.
+  intros I HR He Ha Hp Hc. unfold eff_check in Hc.
   destruct (effb_decl p e He) as (k & b & h & Hd).
   assert (Hel : e < length p) by (apply effb_lt; auto).
-  assert (Hei : e < nlen s) by (rewrite (wf_len p s (inv_wf _ _ _ _ I)); auto).
+  assert (Hei : e < nlen s) by (rewrite (wf_len p s (ib_wf _ _ _ _ _ I)); auto).
   set (s0 := updn e (fun n => set_emissed n false) s) in *.
   assert (E0 : getn s0 e = set_emissed (getn s e) false) by (apply getn_updn_same; auto).
   assert (IB0 : InvBut e [] 0 s0).
-  { apply InvBut_updn; [apply Inv_InvBut; auto|]. intros n. unfold core_same; nsimpl; intuition. }
+  { apply InvBut_updn; [exact I|]. intros n. unfold core_same; nsimpl; intuition. }
   assert (S0 : eff_static s s0) by (apply updn_static; intros n; nsimpl; auto).
-  destruct (inv_rest _ _ _ _ I e (fun x => x)) as (R1 & R2 & R3 & R4 & R5).
+  destruct HR as (R1 & R2 & R3 & R4 & R5).
   assert (Hq0 : forall d, edirty (getn s0 e) = d -> queue_ok (updn e (fun n => set_edirty n false) s0) e).
   { intros d _. unfold GraphInvariant.queue_ok, queue_ok_n. rewrite Hd.
     rewrite getn_updn_same by (unfold s0; rewrite nlen_updn; auto). rewrite E0. nsimpl.
@@ -311,7 +313,7 @@ Proof.
     inversion Hc; subst s' need. clear Hc.
     assert (Hsr0 : srcs (getn s0 e) = srcs (getn s e)) by (rewrite E0; reflexivity).
     destruct (any_plain_spec e (srcs (getn s0 e)) s0 s1 ch ltac:(lia)) as (I1 & P1 & Hn & Hy); auto.
-    { intros x Hx. rewrite Hsr0 in Hx. eapply wf_srclt; eauto. apply I. }
+    { intros x Hx. rewrite Hsr0 in Hx. eapply wf_srclt; eauto. apply (ib_wf _ _ _ _ _ I). }
     destruct (pr_above _ _ _ _ _ _ P1 e (le_n e)) as (Hr1 & Hs1); [discriminate|].
     assert (S1 : eff_static s0 s1) by (eapply PullRel_static; eauto).
     assert (Hei1 : e < nlen s1).
@@ -319,9 +321,9 @@ Proof.
     set (s2 := updn e (fun n => set_edirty n false) s1).
     assert (E2 : getn s2 e = set_edirty (getn s1 e) false) by (apply getn_updn_same; auto).
     assert (Hal1 : ealive (getn s1 e) = true).
-    { destruct S1 as [S1 _]. destruct (S1 e) as (_&_&->&_). rewrite E0. exact Ha. }
+    { destruct S1 as [S1 _]. destruct (S1 e) as (_&->&_). rewrite E0. exact Ha. }
     assert (Hpo1 : epoll (getn s1 e) = true).
-    { destruct S1 as [S1 _]. destruct (S1 e) as (_&_&_&_&->). rewrite E0. exact Hp. }
+    { destruct S1 as [S1 _]. destruct (S1 e) as (_&_&_&->). rewrite E0. exact Hp. }
     assert (Hmi1 : emissed (getn s1 e) = false).
     { destruct (pr_eff _ _ _ _ _ _ P1 e) as (_&_&_&_&->&_). rewrite E0. reflexivity. }
     split.
